@@ -150,13 +150,16 @@ class Mesh:
         """
         from scipy.sparse import coo_matrix
         facets = self.facets.flatten('C')
-        return coo_matrix(
+        p2f = coo_matrix(
             (np.ones(len(facets), dtype=np.int32),
              (np.concatenate((np.arange(self.nfacets),)
                              * self.facets.shape[0]), facets)),
             shape=(self.nfacets, self.nvertices),
             dtype=np.int32,
         ).tocsc()
+        # the triangular facets of wedges list one vertex twice
+        p2f.data[:] = 1
+        return p2f
 
     @property
     def p2t(self):
